@@ -1,10 +1,10 @@
-\* exhaustive, thorough tier: every sequence of 3 entries of the state-changing alphabet after prologues 2 and 3
+\* exhaustive, thorough tier: every sequence of 3 entries of the state-changing alphabet after every prologue
 SPECIFICATION Spec
 CONSTANTS
   NetName = "robustirc.net"
   MaxN = 3
   Families = {"reg", "member", "mode", "oper", "services", "entry"}
-  Prologues = {3, 5}
+  Prologues = {2, 3, 4, 5, 6}
 INVARIANT NoFailure
 VIEW View
 CHECK_DEADLOCK FALSE
